@@ -19,7 +19,7 @@ import (
 func init() {
 	fw.Register(&fw.Check{
 		ID: "C19", Level: "model_checking",
-		Rule: "(a) ALL first-segment strings of length 1..5 (quick) / 1..6 (thorough) over {_ % . space a 5 F é @} through the automatic tag-name function: one pass builds name -> segment and requires injectivity (a for-all-pairs statement) and, end to end for length <= 3, that the interaction carries exactly that tag; (b) documents: URL block (implicit / parenthesised) with URL-level Tags in {none, one, two} x two methods each with own Tags in {none, one, two} x protocol {http, json-rpc} x a path-bearing method that follows (hoisted out of the implicit block) x tags declared before / after use, with / without annotation and description x undeclared tag; oracle: own Tags, else the enclosing URL's, else the single automatic tag; tag entries and interactions reference each other mutually; title = annotation or name; undeclared => rejected; non-trivial = every document / every string with an escaped character; distinct = distinct documents and strings",
+		Rule: "(a) ALL first-segment strings of length 1..5 (quick) / 1..7 (thorough) over {_ % . space a 5 F é @} through the automatic tag-name function: one pass builds name -> segment and requires injectivity (a for-all-pairs statement) and, end to end for length <= 3, that the interaction carries exactly that tag; (b) documents: URL block (implicit / parenthesised) with URL-level Tags in {none, one, two} x two methods each with own Tags in {none, one, two} x protocol {http, json-rpc} x a path-bearing method that follows (hoisted out of the implicit block) x tags declared before / after use, with / without annotation and description x undeclared tag; oracle: own Tags, else the enclosing URL's, else the single automatic tag; tag entries and interactions reference each other mutually; title = annotation or name; undeclared => rejected; non-trivial = every document / every string with an escaped character; distinct = distinct documents and strings",
 		Run:  runC19, QuickCap: 8 * time.Minute, ThoroughCap: 40 * time.Minute,
 	})
 }
@@ -30,7 +30,7 @@ func runC19(c *fw.Ctx) {
 	alpha := []string{"_", "%", ".", " ", "a", "5", "F", "é", "@"}
 	maxLen, e2eLen := 5, 3
 	if !c.Quick() {
-		maxLen, e2eLen = 6, 3
+		maxLen, e2eLen = 7, 4
 	}
 	names := map[string]string{} // tag name -> title (each worker holds the whole map: the pass is cheap)
 	var rec func(prefix string, n int)
@@ -100,7 +100,11 @@ func runC19(c *fw.Ctx) {
 	// every list of 0..3 names over the two declared tags, repetitions included (quick: the URL level
 	// takes the lists of length <= 2)
 	tagSets := [][]string{nil}
-	for l := 1; l <= 3; l++ {
+	maxList := 3
+	if !c.Quick() {
+		maxList = 4
+	}
+	for l := 1; l <= maxList; l++ {
 		for code := 0; code < 1<<l; code++ {
 			var t []string
 			for i := 0; i < l; i++ {
